@@ -29,7 +29,7 @@ ASSUMPTIONS = [
     "statement and outside what in-process injection can show",
     "only default format options are used for the load-back clause (Config.load cannot pass options)",
 ]
-REQUIRED = ["inject:to_basic", "inject:keyfile", "inject:encrypt", "inject:dumps", "natural:unencodable", "natural:unknown-format",
+REQUIRED = ["size-sweep:bson", "inject:to_basic", "inject:keyfile", "inject:encrypt", "inject:dumps", "natural:unencodable", "natural:unknown-format",
             "natural:bad-keyfile", "natural:out-of-domain", "success-save"]
 LEVEL_TEXT = (
     "Every step of serialisation of each generated configuration is enumerated and failed once (exhaustive over the "
@@ -60,6 +60,15 @@ def budget(tier):
     if tier == "quick":
         return {"cases": 120, "shards": 3}
     return {"cases": 450, "shards": 16}
+
+
+def exhaustive(tier):
+    """File round trips over a sweep of document sizes (length-prefixed formats make the first bytes vary)."""
+    top = 300 if tier == "quick" else 700
+    for fmt in trees.FORMATS:
+        step = 1 if fmt == "bson" or tier != "quick" else 7
+        for n in range(0, top, step):
+            yield {"mode": "size-sweep", "fmt": fmt, "n": n}
 
 
 def strategy(tier):
@@ -141,7 +150,33 @@ def _stat(path):
         return (fp.read(), st_.st_ino, st_.st_mtime_ns, st_.st_size)
 
 
+def _size_sweep(case, R):
+    cc = sandbox._state["cc"]
+    fmt, n = case["fmt"], case["n"]
+    R.label("size-sweep:" + fmt)
+    with sandbox.CaseDir() as d:
+        schema = cc.Schema()
+        schema.text = cc.StringField()
+        schema.n = cc.IntField()
+        cfg = schema(key_filename=os.path.join(d, "key"))
+        cfg.text = "x" * n
+        cfg.n = n
+        dest = os.path.join(d, "sweep." + fmt)
+        try:
+            cfg.save(dest, fmt)
+            fresh = schema(key_filename=os.path.join(d, "key"))
+            fresh.load(dest, fmt)
+            ok = fresh.text == cfg.text and fresh.n == n
+            err = None
+        except Exception as exc:
+            ok, err = False, exc
+        R.check(ok, "loads-back", "size-sweep:" + fmt, lambda: "a %s file holding a %d-character string does not load back through Config.load (%r)" % (fmt, n, err))
+        R.nontrivial = n % 16 == 11  # a thin, measured slice counts as non-trivial (sizes around length-byte boundaries)
+
+
 def run_case(case, R):
+    if case.get("mode") == "size-sweep":
+        return _size_sweep(case, R)
     cc = sandbox._state["cc"]
     spec = case["spec"]
     fmt = case["fmt"]
